@@ -25,7 +25,8 @@ DECIDES = ('Exact one-cycle relation of every state of the USBOutStreamBoundaryD
 NOT_DECIDED = ('multi-cycle data integrity beyond the one-byte pipeline (by induction from the clauses above it holds '
                'when packets are separated by at least two idle cycles; bytes arriving in the two cycles after a '
                'packet ends are dropped by design); zero-length packets (no byte is ever output, and their completion '
-               'strobe is not forwarded); strobes arriving after the end-of-packet edge.')
+               'strobe is not forwarded); strobes arriving outside the receiving state (together with the very first byte, '
+               'which the idle state discards, or after the end-of-packet edge).')
 
 CLS = 'USBOutStreamBoundaryDetector'
 IV, IN, IP = 'self.unprocessed_stream.valid', 'self.unprocessed_stream.next', 'self.unprocessed_stream.payload'
